@@ -86,7 +86,12 @@ func isAtextByte(c byte) bool {
 	return c >= 'a' && c <= 'z' || c >= 'A' && c <= 'Z' || c >= '0' && c <= '9' || strings.IndexByte("!#$%&'*+-/=?^_`{|}~", c) >= 0 || c >= 0x80
 }
 
-var trickyLocals = []string{"plain", "dot.ted", "a b", "a b>c", "x<y", "semi;colon", "com,ma", "co:lon", "at@sign", "back\\slash", "quo\"te", "(paren)", "trailing.", ".leading", "dou..ble",
+// long values: what a check looks at must not stop before the value does
+var longLocalTab = strings.Repeat("x", 520) + "\there"
+var longLocalCRLF = strings.Repeat("y", 511) + "\r\nRCPT TO:<smuggled@example.net>"
+var longLocalPlain = strings.Repeat("z", 600)
+
+var trickyLocals = []string{longLocalTab, longLocalCRLF, longLocalPlain, strings.Repeat("ab ", 180), "plain", "dot.ted", "a b", "a b>c", "x<y", "semi;colon", "com,ma", "co:lon", "at@sign", "back\\slash", "quo\"te", "(paren)", "trailing.", ".leading", "dou..ble",
 	"ümlaut", "日本", "عل\u200cرضا", "soft\u00adhyphen", "zw\u200bsp", "bom\ufeff", "rtl\u202eabc", "j\u200doin", "tab\there", "a>b c<d", "\"", "\\", " ", "MAIL FROM:<x@y>", "a> SIZE=1", "a@b>", "<>",
 	"Ops@NOC", "First.Last@Dept", "UPPER", "Mixed.Case+Tag", "a@B@c", "bob%example.org", "100%.off+news", "sales%%eu", "%s", "%d%v", "a%!b", "pct %s in quotes", "%[1]s", "%"}
 
@@ -188,7 +193,8 @@ func init() {
 					}
 				}
 				if r.Chance(40) {
-					sc.Helo = []string{"client.example", "[192.0.2.7]", "a b", "evil\r\nMAIL FROM:<x@y>", "tab\tname", "ok-host", "x y z", " lead"}[r.Intn(8)]
+					sc.Helo = []string{"client.example", "[192.0.2.7]", "a b", "evil\r\nMAIL FROM:<x@y>", "tab\tname", "ok-host", "x y z", " lead",
+						strings.Repeat("h", 600) + ".example", strings.Repeat("h", 520) + " smuggled", strings.Repeat("h", 515) + "\r\nMAIL FROM:<x@y>"}[r.Intn(11)]
 				}
 				// HELO values with blanks / controls: the option must refuse them
 				if strings.ContainsAny(sc.Helo, " \t\r\n") {
